@@ -112,6 +112,20 @@ theorem released_is_silent (E : Env) (hincr : Incr E.nx) (acts : List Act)
   obtain ⟨sc, off, last, h1, _⟩ := every_run_is_the_next_due_occurrence E hincr acts post tr id occ runAt h
   rw [hrel] at h1; cases h1
 
+/-! ### liveness at quiescence (stated, not proved) -/
+
+/-- The half of "exactly once" that safety cannot give — no due occurrence is forgotten: after every harness op
+(API call / clock move / finished run, followed by the main loop running until it blocks, with real-timer behaviour
+and no mid-pass race), every queued item that is due is waiting for a BUSY worker. It needs the timer invariants
+(`s.when` ≤ every queued `when`; an armed deadline never lies after max(now, s.when); a deadline in the past fires at
+the next clock movement) and a bound on the loop fuel by the number of workers. NOT PROVED: on every run the driver
+evaluates exactly this clause (`dueIdle`, SPECFAIL due-run-dispatched) on the real scheduler's observed output and the
+model is compared with the real queue, so a violation is found by search, not excluded by proof. -/
+def due_runs_dispatched_stmt : Prop :=
+  ∀ (E : Env), Incr E.nx → (∀ id, E.wk id < 32) → ∀ (ops : List Op),
+    let s := runOps E {} (ops.map (fun op => ([], op)))
+    ∀ it ∈ s.queue, it.whn ≤ s.now → (aget s.busy (E.wk it.id)).isSome = true
+
 /-! ### non-vacuity and sensitivity -/
 
 /-- A concrete oracle: every schedule fires every 10 s; one worker. -/
